@@ -441,6 +441,8 @@ pub fn explain_blind(text: &str) -> Option<&'static str> {
     if changed && refxml::parse(&out, false).wf { return Some("name-start"); }
     // finding "'<' that reaches an attribute value or content through an entity's replacement text is not detected"
     if let Some(rep) = repair_entity_lt(text) { if refxml::parse(&rep, false).wf { return Some("entity-lt"); } }
+    // both findings in one text: each repair alone leaves the other defect's zone
+    if changed { if let Some(rep) = repair_entity_lt(&out) { if refxml::parse(&rep, false).wf { return Some("name-start+entity-lt"); } } }
     None
 }
 
